@@ -870,7 +870,30 @@ def configs(draw, proj, prof=None, n_seeds=(1, 2), allow_prune=True, strict=None
         for k_ in ('block', 'ignore'):
             if k_ in default and not default[k_]:
                 del default[k_]
-        used = set()
+        # directed pruning: switch off / ignore an actual dependency of an actual caller
+        call_edges = sorted({(f'{mn_}#{r_["name"]}', s_['target']) for mn_, r_ in routines for s_ in r_['body']
+                             if s_['k'] in ('call', 'tbp', 'gcall') and s_.get('via') not in ('self', 'back')})
+        if call_edges:
+            for _ in range(b.integer(0, 2)):
+                caller, callee = b.pick(call_edges)
+                what = b.pick(['ignore', 'ignore', 'block', 'disable'])
+                cmn, crn = callee.split('#')
+                key = crn if b.chance(5) else callee
+                if '%' in crn:
+                    key = b.pick([crn, callee, crn.split('%')[0]])
+                if unsafe(key, 'item'):
+                    continue
+                if b.chance(4):
+                    if what != 'disable':
+                        default.setdefault(what, [])
+                        if key not in default[what]:
+                            default[what] = sorted(default[what] + [key])
+                else:
+                    ckey = caller.split('#')[1] if local_count.get(caller.split('#')[1], 0) == 1 else caller
+                    ent = rconf.setdefault(ckey, {})
+                    if key not in ent.get(what, []):
+                        ent[what] = sorted(ent.get(what, []) + [key])
+        used = {k.split('#')[-1] for k in rconf}
         for _ in range(b.integer(0, 3)):
             mn, rn = b.pick(names)
             if rn in used:
